@@ -51,7 +51,7 @@ DevD22 == "RpcReceipt/synthetic-cumulativeGasUsed-counts-refused-txs"
 DevD23 == "Converges/pruned-restart-skips-earliest-available-block"
 
 M0 == [chain |-> <<>>, full |-> EmptyKv, kv |-> EmptyKv, pending |-> <<>>, up |-> FALSE, cur |-> 0, start |-> 0, tip |-> 0,
-       skip |-> {}, pruned |-> {}, skip23 |-> {}, mode |-> "none", done |-> {}, expect |-> EmptyKv, devSched |-> FALSE, sched |-> "none", viewDev |-> FALSE]
+       skip |-> {}, pruned |-> {}, skip23 |-> {}, mode |-> "none", done |-> {}, curFlushed |-> FALSE, expect |-> EmptyKv, devSched |-> FALSE, sched |-> "none", viewDev |-> FALSE]
 
 (* the design module's own variables are not used here (the model state is the record M) *)
 TraceInit == /\ l = 1 /\ M = M0 /\ err = <<>> /\ seen = <<>> /\ cnt = NoFn /\ used = {}
@@ -125,9 +125,13 @@ DoTip ==
   /\ M' = [M EXCEPT !.tip = Ev.tip]
   /\ UNCHANGED <<err, seen, cnt, used>>
 
+(* a block counts as indexed (for Idempotent) once the IndexBlock call that flushed it is over - an indexer may flush
+   several times per block; whether that is safe is decided by Converges on the crash schedules *)
+Finished(m) == IF m.cur # 0 /\ m.curFlushed THEN m.done \cup {m.cur} ELSE m.done
+
 DoIndexBlock ==
   /\ Ev.ev = "IndexBlock"
-  /\ M' = [M EXCEPT !.cur = Ev.h]
+  /\ M' = [M EXCEPT !.cur = Ev.h, !.done = Finished(M), !.curFlushed = FALSE]
   /\ UNCHANGED <<err, seen, cnt, used>>
 
 DoBeginBatch ==
@@ -146,19 +150,19 @@ DoFlush ==
   /\ Ev.ev = "Flush"
   /\ LET kv1 == ApplyWrites(M.kv, M.pending)
          c == IF M.cur \in M.done /\ kv1 # M.kv THEN <<"Idempotent", "re-indexing-a-block-changed-the-index">> ELSE OK
-     IN Settle(c, [M EXCEPT !.kv = kv1, !.pending = <<>>, !.done = @ \cup {M.cur}])
+     IN Settle(c, [M EXCEPT !.kv = kv1, !.pending = <<>>, !.curFlushed = TRUE])
   /\ cnt' = Bump(cnt, IF M.cur \in M.done THEN "flush.again" ELSE "flush.first")
   /\ UNCHANGED used
 
 DoCrash ==
   /\ Ev.ev = "Crash"
-  /\ M' = [M EXCEPT !.pending = <<>>, !.up = FALSE, !.cur = 0]
-  /\ cnt' = Bump(cnt, IF M.pending = <<>> THEN "crash.between-blocks" ELSE "crash.open-batch")
+  /\ M' = [M EXCEPT !.pending = <<>>, !.up = FALSE, !.cur = 0, !.curFlushed = FALSE]
+  /\ cnt' = Bump(cnt, IF M.pending # <<>> THEN "crash.open-batch" ELSE "crash.no-open-writes")
   /\ UNCHANGED <<err, seen, used>>
 
 DoCaught ==
   /\ Ev.ev = "Caught"
-  /\ M' = [M EXCEPT !.tip = Ev.tip]
+  /\ M' = [M EXCEPT !.tip = Ev.tip, !.done = Finished(M), !.cur = 0, !.curFlushed = FALSE]
   /\ UNCHANGED <<err, seen, cnt, used>>
 
 (* a dump binds the model's database to the real one; at catch-up it must be Index(chain) *)
